@@ -63,6 +63,8 @@ def run(ctx, extra_defs=()):
     R6 = ctx.rule('C17.R6', 'each completion handler is consumed exactly once on every path (aio sources)')
     R7 = ctx.rule('C17.R7', 'thread_pool: job removed and run exactly once, outside the lock, exceptions contained; cancel/post consistent')
     R8 = ctx.rule('C17.R8', 'cross-thread entry points wake a polling loop after enqueueing')
+    R10 = ctx.rule('C17.R10', 'retry objects (read/write until done): whether the operation is completed or re-armed after an I/O attempt is decided by the error code of that attempt, and the handler receives that code')
+    R11 = ctx.rule('C17.R11', 'run_one only acts on events of the current poll: the shuffle of ready events swaps inside evs[0..n) (a stale slot of an earlier poll would complete a handler although its descriptor is not ready)')
     R9 = ctx.rule('C17.R9', 'a cancellation is dropped only when nothing is queued and nothing is registered for the descriptor')
 
     elg = [f for f in P.fns.values() if f.brecord and (f.brecord == EL or f.brecord.startswith(EL + '::'))]
@@ -386,6 +388,90 @@ def run(ctx, extra_defs=()):
         ck = [i for i in f.calls() if q.short_of(f.callee(i)) == 'cancelation_is_needed_with_data_mutex_locked']
         ctx.check(len(ck) == 1 and la2.at(ck[0]) is not None and (DM, 'X') in la2.at(ck[0]), R9, 'set_event(canceler):check-under-lock', 'cancellation test runs without the lock', f.where)
 
+
+    # ---------------- R10 the error of the attempt decides
+    n10 = 0
+    for f in sorted(aiofns, key=lambda g: g.id):
+        ios = [i for i in f.calls() if q.short_of(f.callee(i)) in ('read_some', 'write_some', 'bytes_readable') and len(f.args(i)) >= 2]
+        rearm = [i for i in f.calls() if q.short_of(f.callee(i)) in ('on_readable', 'on_writeable')]
+        if not ios or not rearm or f.kind not in ('method',):
+            continue
+        for i in ios:
+            ev = f.ref_of(f.args(i)[-1])
+            if not ev or not ev.startswith('v:'):
+                continue
+            after = [r for r in rearm if q.reaches(f, i, r)]
+            if not after:
+                continue
+            n10 += 1
+            g_err = f.gate_edges(lambda atom, pol, ev=ev: ev in f.subtree_refs(atom))
+            ok = all(f.only_through(r, [e for e in g_err if len(e) == 4 and q.reaches(f, i, f.blocks[e[0]].tcond if f.blocks[e[0]].tcond is not None else r)]) for r in after)
+            ctx.check(ok, R10, '%s:%s:rearm-depends-on-own-error' % (q.fkey(f), q.short_of(f.callee(i))), 'the operation is re-armed after an I/O attempt without looking at the error of that attempt (EOF / reset would be retried forever)', f.loc(i))
+            # completion on this path hands over the same error variable
+            comp = [c for c in f.calls() if f.N(c)['k'] == 'CXXOperatorCallExpr' and f.N(c).get('op') == '()' and q.reaches(f, i, c) and len(f.args(c)) >= 1]
+            comp += [c for c in f.calls() if q.short_of(f.callee(c)) == 'post' and q.reaches(f, i, c) and len(f.args(c)) >= 2]
+            for c in comp:
+                a = f.args(c)
+                if f.N(c)['k'] == 'CXXOperatorCallExpr' and len(a) < 2:
+                    continue
+                earg = a[1]
+                ctx.check(f.ref_of(earg) == ev, R10, '%s:%s:completion-carries-own-error@L%d' % (q.fkey(f), q.short_of(f.callee(i)), f.N(c)['l'] - f.line), 'the handler is completed with an error code other than the one of the I/O attempt', f.loc(c))
+    ctx.require(n10 >= 4 or ctx.violations, 'C17.R10: only %d retry sites found in booster aio' % n10)
+
+    # ---------------- R11 shuffle stays inside the reported events
+    from vlib import lin as _lin
+    from vlib.lin import Lin as _Lin, ge as _ge
+    rz = P.fn(EL + '::randomize_events')
+    rnd = P.fn(EL + '::rand')
+    # contract of rand(limit): 0 <= result < limit for limit >= 1  --  `(x % M) * limit / M` with the same constant M
+    rr = [r for r in rnd.returns() if rnd.ret_value(r) is not None]
+    okc = len(rr) == 1
+    if okc:
+        v = rnd.strip(rnd.ret_value(rr[0]))
+        n_ = rnd.N(v)
+        okc = n_['k'] == 'BinaryOperator' and n_.get('op') == '/'
+        if okc:
+            num, den = rnd.strip(n_['ch'][0]), n_['ch'][1]
+            M = rnd.const_value(den)
+            nn = rnd.N(num)
+            okc = M is not None and M > 0 and nn['k'] == 'BinaryOperator' and nn.get('op') == '*'
+            if okc:
+                lim = q.param_by_index(rnd, 0)
+                sides = [rnd.ref_of(c) for c in nn['ch']]
+                rv = [x for x in sides if x and x != lim]
+                okc = lim in sides and len(rv) == 1 and rv[0].startswith('v:')
+                if okc:
+                    ds = rnd.defs_of_var(rv[0])
+                    okc = len(ds) == 1 and ds[0][1] is not None
+                    if okc:
+                        top = rnd.N(rnd.strip(ds[0][1]))
+                        while top['k'] in ('ParenExpr', 'CStyleCastExpr', 'ImplicitCastExpr', 'CXXStaticCastExpr') and top['ch']:
+                            top = rnd.N(rnd.strip(top['ch'][0]))
+                        okc = top['k'] == 'BinaryOperator' and top.get('op') == '%' and rnd.const_value(top['ch'][1]) == M
+    ctx.check(okc, R11, 'rand:result-below-limit', 'rand(limit) is not (x % M) * limit / M with one constant M: its result is not known to stay below limit', rnd.where)
+    lps = q.loops(rz)
+    cl = q.counting_loop(rz, lps[0]) if len(lps) == 1 else None
+    ctx.check(cl is not None and cl['start'] == 0 and cl['step'] == 1 and cl['op'] == '<', R11, 'randomize_events:loop-i-from-0-below-n', 'shuffle loop shape not recognised', rz.where)
+    if cl is not None:
+        S = _lin.Symb(rz)
+        I = _Lin.atom(cl['var'])
+        Nn = S.lin(cl['bound'])
+        cons = [_ge(I), _ge(Nn - I - _Lin.const(1))]
+        for j in rz.walk(rz.N(lps[0])['body']):
+            if rz.N(j)['k'] == 'DeclStmt':
+                for d in rz.N(j)['decls']:
+                    if d.get('init') is not None:
+                        c = [x for x in rz.calls(d['init']) if rz.N(x).get('callee') == rnd.id]
+                        if len(c) == 1 and rz.strip(d['init']) == c[0] or (c and rz.strip(rz.N(rz.strip(d['init']))['ch'][0] if rz.N(rz.strip(d['init']))['ch'] else d['init']) == c[0]):
+                            arg = S.lin(rz.args(c[0])[0])
+                            V = _Lin.atom(d['ref'])
+                            cons += [_ge(V), _ge(arg - _Lin.const(1) - V)]
+        subs = [j for j in rz.walk(rz.N(lps[0])['body']) if rz.N(j)['k'] == 'ArraySubscriptExpr']
+        ctx.check(len(subs) >= 2, R11, 'randomize_events:subscripts', 'no element accesses in the shuffle', rz.where)
+        for k, j in enumerate(subs):
+            idx = S.lin(rz.N(j)['ch'][1])
+            ok = _lin.implies(cons, _ge(idx)) and _lin.implies(cons, _ge(Nn - idx - _Lin.const(1)))
+            ctx.check(ok, R11, 'randomize_events:evs[%s]:inside-0..n' % repr(idx), 'the shuffle can touch evs[n] or beyond: a stale record of an earlier poll is treated as a fresh event', rz.loc(j), detail={'index': repr(idx), 'facts': [repr(c_[1]) for c_ in cons]})
     ctx.floor(R1, 80)
     ctx.floor(R2, 7)
     ctx.floor(R3, 9)
@@ -395,5 +481,7 @@ def run(ctx, extra_defs=()):
     ctx.floor(R7, 8)
     ctx.floor(R8, 8)
     ctx.floor(R9, 5)
+    ctx.floor(R10, 6)
+    ctx.floor(R11, 4)
     ctx.trust('guarded-by tables in rules/C17.py; std::recursive_mutex / condition_variable semantics')
     ctx.assume('io_service::reset() is only called while no thread runs the loop (documented)')
